@@ -4,6 +4,7 @@
 //!   usage: c18 <kinds-file> <out-file>        kinds-file: one request type per line (index = line no.)
 //! Output line:  <id> : <kind-index> <cred> <token_set> <debug_on> <has_params> <admin_key> : <class> <need> <changed> <has_result>
 //!   cred: 0 none 1 wrong 2 admin-token 3 pair-viewer 4 pair-operator 5 pair-engineer 6 revoked 7 expired
+//!         8 empty string 9 prefix of the token 10 token+suffix 11 lower-cased token 12 first character of the token
 //!   class: 0 unauthorized 1 forbidden(need=rank) 2 debug-disabled 3 unsupported 4 dispatched 5 invalid-request 9 no-reply/crash
 //! Extra lines:  g<id> : <garbled-line-index> … (class must be 5, nothing changed), and the
 //! `stops` scenario line (does a viewer's debug.stops consume the stop notification?).
@@ -176,6 +177,12 @@ fn cred_field(env: &Env, cred: usize) -> Option<String> {
         1 => Some("definitely-not-a-token".into()),
         2 => Some(ADMIN.into()),
         3..=7 => Some(env.tokens[cred - 3].clone()),
+        // near misses of the configured token: empty, proper prefix, extension, case variant
+        8 => Some(String::new()),
+        9 => Some(ADMIN[..ADMIN.len() / 2].to_string()),
+        10 => Some(format!("{ADMIN}x")),
+        11 => Some(ADMIN.to_ascii_lowercase()),
+        12 => Some(ADMIN[..1].to_string()),
         _ => None,
     }
 }
@@ -196,7 +203,7 @@ fn main() {
         for debug_on in [true, false] {
             let mut env = build_env(&dir, token_set, debug_on);
             for (ki, kind) in kinds.iter().enumerate() {
-                for cred in 0..8usize {
+                for cred in 0..13usize {
                     let variants: Vec<(bool, bool)> = if kind == "config.set" { vec![(false, false), (true, false), (true, true)] } else { vec![(true, false), (false, false)] };
                     for (hp, ak) in variants {
                         id += 1;
